@@ -117,27 +117,41 @@ class Domain:
             return z3.And(c >= 0, c <= 0x10FFFF)
         return z3.Or(z3.And(c >= 0, c <= 127), *[c == e for e in self.extra])
 
+    def _memo_get(self, kind, c, build):
+        """z3 terms are immutable and hash-consed in the global context, so a predicate over
+        a given character term can be reused across paths (the term is kept alive)."""
+        m = self.__dict__.setdefault('_memo', {})
+        key = (kind, c.get_id())
+        r = m.get(key)
+        if r is None:
+            r = (build(), c)
+            m[key] = r
+        return r[0]
+
     def is_space(self, c):
         if isinstance(c, int):
             return chr(c).isspace()
-        return _in_ranges(c, self.space_ranges)
+        return self._memo_get('sp', c, lambda: _in_ranges(c, self.space_ranges))
 
     def is_int_space(self, c):
         if isinstance(c, int):
             return c in _INT_SPACE
-        return _in_ranges(c, self.int_space_ranges)
+        return self._memo_get('isp', c, lambda: _in_ranges(c, self.int_space_ranges))
 
     def is_digit(self, c):
         """decimal digit in the sense of int() and regex \\d"""
         if isinstance(c, int):
             return unicodedata.decimal(chr(c), None) is not None
         if self.full:
-            return _in_ranges(c, self.digit_blocks)
-        return _in_ranges(c, _ranges(self.digits))
+            return self._memo_get('dg', c, lambda: _in_ranges(c, self.digit_blocks))
+        return self._memo_get('dg', c, lambda: _in_ranges(c, _ranges(self.digits)))
 
     def digit_val(self, c):
         if isinstance(c, int):
             return unicodedata.decimal(chr(c))
+        return self._memo_get('dv', c, lambda: self._digit_val(c))
+
+    def _digit_val(self, c):
         if self.full:
             e = c - 48
             for lo, hi in self.digit_blocks:
@@ -169,8 +183,8 @@ class Domain:
             eng = core.ENG
             if eng.check(c >= 128):
                 raise Unsupported('lower() of a possibly non-ASCII character in domain U')
-            return z3.If(z3.And(c >= 65, c <= 90), c + 32, c)
-        return self._case(c, self.lower_map, 65, 90, 32)
+            return self._memo_get('lo', c, lambda: z3.If(z3.And(c >= 65, c <= 90), c + 32, c))
+        return self._memo_get('lo', c, lambda: self._case(c, self.lower_map, 65, 90, 32))
 
     def upper(self, c):
         if isinstance(c, int):
@@ -182,8 +196,8 @@ class Domain:
             eng = core.ENG
             if eng.check(c >= 128):
                 raise Unsupported('upper() of a possibly non-ASCII character in domain U')
-            return z3.If(z3.And(c >= 97, c <= 122), c - 32, c)
-        return self._case(c, self.upper_map, 97, 122, -32)
+            return self._memo_get('up', c, lambda: z3.If(z3.And(c >= 97, c <= 122), c - 32, c))
+        return self._memo_get('up', c, lambda: self._case(c, self.upper_map, 97, 122, -32))
 
     def describe(self):
         if self.full:
